@@ -27,10 +27,7 @@ func lowerOf(st *State, t Term) Term {
 			return StrLit(strings.ToLower(s))
 		}
 	}
-	r := reg.uf("sf_lower", SStr, t)
-	st.assume(Eq(reg.uf("sf_lower", SStr, r), r))
-	st.assume(Eq(App(SInt, "str.len", r), App(SInt, "str.len", t))) // ASCII-preserving length is an assumption for non-ASCII input
-	return r
+	return reg.uf("sf_lower", SStr, t)
 }
 
 func unStrLit(t Term) (string, bool) {
